@@ -4,6 +4,7 @@ CONSTANT K4 = 2
 CONSTANT K5 = 1
 CONSTANT DeepN = 3
 CONSTANT DeepK = 0
+CONSTANT DeepMinLinks = 0
 CONSTANT Mode = "machine"
 INIT Init
 NEXT Next
